@@ -346,3 +346,17 @@ Definition chk_resume_events (last_bt last_settle : Z) (days : list Z) (observed
   pevs_eq (snd (xrun {| x_last_bt := oz last_bt; x_last_settle := oz last_settle |} (daily_events days) (lastz days))) observed.
 Definition chk_report_dates (earlier current observed : list Z) : bool :=
   zlist_eq (map fst (merge_series (map (fun d => (d, 0%Q)) earlier) (map (fun d => (d, 0%Q)) current))) observed.
+
+(* ---- the broker's books (C05 auction rule, C04): the matcher calls the model makes for the recorded submissions / bars / cancels / closes,
+        with the recorded outcome of each call as the oracle, against the recorded calls ---- *)
+From RQ Require Import Model.Broker.
+Definition fin_of (table : list (nat * nat)) : nat -> nat -> bool := fun id k => existsb (fun p => Nat.eqb (fst p) id && Nat.eqb (snd p) k) table.
+Definition bphase_eqb (a b : bphase) : bool := match a, b with BAuction, BAuction | BTrading, BTrading => true | _, _ => false end.
+Fixpoint bcalls_eq (a : list bcall) (b : list (nat * bool * bphase)) : bool :=
+  match a, b with
+  | [], [] => true
+  | c :: s, (id, fl, ph) :: t => Nat.eqb (c_id c) id && Bool.eqb (c_auction c) fl && bphase_eqb (c_phase c) ph && bcalls_eq s t
+  | _, _ => false
+  end.
+Definition chk_broker_calls (final_calls : list (nat * nat)) (ops : list bop) (observed : list (nat * bool * bphase)) : bool :=
+  bcalls_eq (List.rev (bk_calls (brun (fin_of final_calls) ops))) observed.
